@@ -47,9 +47,13 @@ var gSummarisers = map[string]func(job json.RawMessage, modelOK bool, scratch st
 // deadlines: a healthy case needs milliseconds; once several cases have run into the 20 s deadline the tree is
 // broken in a systematic way and the remaining cases get a short one.
 var gDeadlineHits atomic.Int32
+var gQuiesceHits atomic.Int32
 
 func gDeadlineNow() time.Duration {
-	if gDeadlineHits.Load() >= 4 {
+	switch n := gDeadlineHits.Load(); {
+	case n >= 12:
+		return 500 * time.Millisecond
+	case n >= 4:
 		return 2 * time.Second
 	}
 	return gDeadline
